@@ -44,6 +44,10 @@ def pFn (s : String) : Option (Float → Float) :=
   match s.splitOn ":" with
   | ["aff", a, b] => do let a ← pReal a; let b ← pReal b; some (fun x => a * x + b)
   | _ => none
+def pFn2 (s : String) : Option (Float → Float → Float) :=
+  match s.splitOn ":" with
+  | ["aff2", a, b, c] => do let a ← pReal a; let b ← pReal b; let c ← pReal c; some (fun x y => a * x + b * y + c)
+  | _ => none
 def pOptFn (s : String) : Option (Option (Float → Float)) := if s = "N" then some none else (pFn s).map some
 def pFnb (s : String) : Option (Float → Bool) :=
   match s.splitOn ":" with
